@@ -19,3 +19,7 @@ PROPS["C05"]["theorems"] += [T("Pins.writeErrorShape", "pin", "writeError: user 
 # C20 under concurrency (free-running search support)
 PROPS["C20"]["streams"] += [S("conccopy", 16, 64, 2)]
 PROPS["C20"]["rule"] += " | conccopy: 8 goroutines x 200 requests, GET and POST for ONE url through one router at once, each as the server does it (GetRoutingFlavors then RouteRequest); the copy rule mirrors POST and PUT only; every POST is copied exactly once, no GET ever, every request reaches the proxy destination (free-running: search support; seeded change C20-m8)"
+
+_PIN_WB = T("Pins.writeBodyShape", "pin", "writeBody (the copy loop of every writer stack): a reader error other than io.EOF ends the transfer as an error (writer closed, errCleanup run) - a body that breaks off is never taken for a complete one; whole function body pinned (seeded change C06-m8)")
+for _pid in ("C05", "C06", "C13"):
+    PROPS[_pid]["theorems"] += [_PIN_WB]
